@@ -1,5 +1,6 @@
 import XmppModel.Model.Correlate
 import XmppModel.Lemmas.Correlate
+import XmppModel.Lemmas.CorrAccount
 import XmppModel.Model.Muc
 import XmppModel.Lemmas.Muc
 import XmppModel.Model.IbbReader
@@ -9,6 +10,7 @@ import XmppModel.Lemmas.CorrAttrs
 import XmppModel.Model.CorrWrap
 import XmppModel.Model.CorrExpect
 import XmppModel.Model.CorrIbb
+import XmppModel.Lemmas.CorrKey
 /-!
 # C06 — every correlated wait ends exactly once with its own reply or its context error
 
@@ -141,20 +143,79 @@ theorem C06_matched_offered {cfg s st j} (hidle : s.spc = .idle) (hl : lookup cf
     ∃ s', step cfg s (.read st) = some s' ∧ s'.hlog = s.hlog ∧ s'.spc = .offering j s.hist.length := by
   simp [step, hidle, hl]
 
-/-- the cancel window, made visible: a response is discarded only while the context registered
-for the matched waiter is done -/
-theorem C06_cancel_window {cfg s s'} (hs : step cfg s .abandon = some s') :
-    ∃ j k, s.spc = .offering j k ∧ ctxDone cfg s j = true ∧ s'.dropped = k :: s.dropped ∧
+/-- the cancel window (round E, after the repo fix): the serve loop gives up a hand-off only while
+the context registered for the matched waiter is done — and then the response, which nobody waits
+for any more, goes to the handler like every other unmatched response; nothing is discarded -/
+theorem C06_cancel_window_to_handler {cfg s s'} (hs : step cfg s .abandon = some s') :
+    ∃ j k, s.spc = .offering j k ∧ ctxDone cfg s j = true ∧ s'.hlog = k :: s.hlog ∧ s'.dropped = s.dropped ∧
       (s'.spc = .idle ∨ s'.spc = .dead) := by
   simp only [step] at hs
   split at hs
   · rename_i j k hj
     split at hs
     · simp at hs; subst hs
-      refine ⟨j, k, hj, by assumption, rfl, ?_⟩
+      refine ⟨j, k, hj, by assumption, rfl, rfl, ?_⟩
       simp only []; split <;> simp
     · simp at hs
   · simp at hs
+
+/-- no response is ever discarded: in every reachable state the list of dropped responses is empty
+(before the round E fix a response looked up in the window between the cancellation of its
+caller and the caller's deregistration was) -/
+theorem C06_nothing_dropped {cfg s} (hr : Reach cfg s) : s.dropped = [] := by
+  have stepEq : ∀ {s a s'}, step cfg s a = some s' → s'.dropped = s.dropped := by
+    intro s a s' hs
+    cases a <;> simp only [step] at hs <;> (try split at hs) <;> (try split at hs) <;> (try split at hs) <;>
+      (try simp at hs) <;> (try (obtain ⟨_, hs⟩ := hs)) <;> (try subst hs) <;> (try rfl) <;> simp_all
+  induction hr with
+  | init => rfl
+  | step _ hs ih => rw [stepEq hs]; exact ih
+
+/-! ### every stanza read is accounted for (round E, review A C06-1)
+
+The clauses "a response reaches at most one caller", "never a caller with a different id" and
+"responses nobody waits for go to the handler" as ONE invariant over all reachable states (any
+number of requesters, any schedule) — not a statement about one branch of `step`. -/
+
+/-- in every reachable state every stanza the serve loop has read is in exactly one of three
+places: the handler got it (and no call holds it), exactly one call holds it (and the handler did
+not get it), or the serve loop is offering it right now (and neither has it) -/
+theorem C06_every_stanza_accounted {cfg s} (hr : Reach cfg s) (k : Nat) (hk : k < s.hist.length) :
+    (k ∈ s.hlog ∧ ∀ i, (s.rpc i).held ≠ some k) ∨
+    (∃ i, (s.rpc i).held = some k ∧ k ∉ s.hlog ∧ ∀ i', (s.rpc i').held = some k → i' = i) ∨
+    (∃ j, s.spc = .offering j k ∧ k ∉ s.hlog ∧ ∀ i, (s.rpc i).held ≠ some k) := by
+  have hB := (inv_reach hr).2
+  rcases accounted_reach hr k hk with h1 | ⟨i, h2⟩ | ⟨j, h3⟩
+  · exact Or.inl ⟨h1, fun i hi => (hB.holdMatch i k hi).2.1 h1⟩
+  · exact Or.inr (Or.inl ⟨i, h2, (hB.holdMatch i k h2).2.1, fun i' hi' => hB.uniq i' i k hi' h2⟩)
+  · obtain ⟨_, _, _, hnl, _, hnh⟩ := hB.offer j k h3
+    exact Or.inr (Or.inr ⟨j, h3, hnl, hnh⟩)
+
+/-- once the handler has a stanza it keeps it: whatever happens afterwards (late calls with that
+id, cancellations, closes) the stanza is never handed to a caller -/
+theorem C06_handled_stays_handled {cfg} {k : Nat} :
+    ∀ {as s s'}, Reach cfg s → run cfg s as = some s' → k ∈ s.hlog → k ∈ s'.hlog ∧ ∀ i, (s'.rpc i).held ≠ some k := by
+  intro as
+  induction as with
+  | nil =>
+    intro s s' hr hrun h
+    simp [run] at hrun; subst hrun
+    exact ⟨h, fun i hi => ((inv_reach hr).2.holdMatch i k hi).2.1 h⟩
+  | cons a as ih =>
+    intro s s' hr hrun h
+    simp only [run] at hrun
+    split at hrun
+    · rename_i s1 hs1
+      exact ih (Reach.step hr hs1) hrun (hlog_mono hs1 h)
+    · simp at hrun
+
+/-- non-vacuity: one run with a stanza in each of the three places (0 handled: unknown id; 1 held
+by requester 0; 2 being offered to requester 1) -/
+example : ∃ s, run { ids := fun i => i, kinds := fun _ => .iq, derived := true } init
+    [.read ⟨.iq, 7, true, .stream, false⟩, .call 0, .sendOk 0, .call 1, .sendOk 1,
+     .read ⟨.iq, 0, true, .stream, false⟩, .recv 0, .dereg 0, .close 0, .read ⟨.iq, 1, true, .stream, false⟩] = some s ∧
+    s.hlog = [0] ∧ (s.rpc 0).held = some 1 ∧ s.spc = .offering 1 2 := by
+  simp [run, step, init, lookup, upd, nsMatch, RPc.held]
 
 /-! ### progress -/
 
@@ -418,10 +479,34 @@ theorem C06_receipts_handler_not_blocked_by_sender {ids s} (id : Nat) (hh : s.hp
     (rstep ids s (.receipt id)).isSome := by
   simp only [rstep, hh]; split <;> simp
 
-/-- the lock discipline that makes the model's handler step unconditional, regenerated from
-`receipts/receipts.go`: `SendMessageElement` makes no Session send while it holds `h.m` (the
-mutex `HandleMessage` needs for every `<received/>`) -/
-theorem C06_receipts_lock_discipline : Generated.C06.receiptsSendsWhileLocked = some false := by decide
+/-- the model's answer for one row of the probe `Generated.C06.receiptsWhileSending`: the sender has
+registered and is inside its transmission (`sending`); a receipt (row 0: for its id, row 1: for an
+unknown id) and a second unknown receipt arrive; then the transmission ends and the sender takes
+its receipt (row 0) or its context ends (row 1).  Both send APIs are one model (`SendMessage` is
+`SendMessageElement` behind a decoded start element). -/
+def rcptProbeRow (api which : Nat) : Nat × Nat × Bool × Bool :=
+  let ids : Nat → Nat := fun _ => 0
+  let first : List RAct := if which = 0 then [.receipt 0, .deliver] else [.receipt 5]
+  let s1 := rrun ids rinit ([.call 0] ++ first ++ [.receipt 9])
+  let handlerDone := match s1 with
+    | some s => s.hpc.isNone && s.unhandled.contains 9 && decide (s.wpc 0 = .sending)
+    | none => false
+  let rest : List RAct := if which = 0 then [.sendOk 0, .take 0] else [.sendOk 0, .cancel 0, .timeout 0]
+  let got := match s1.bind (fun s => rrun ids s rest) with
+    | some s => decide (s.wpc 0 = .done true)
+    | none => false
+  (api, which, handlerDone, got)
+
+/-- tie by a PROBE of the linked code (no source text; round E, replaces the go/ast fact
+`receiptsSendsWhileLocked`): with the sender parked inside its transmission the real handler
+finishes a receipt for the sender's id and one for an unknown id (both send APIs), and the sender
+then returns nil exactly when the receipt was its own — the whole table is what the model says.
+Holding the handler's mutex across the transmission, or registering only after it, changes a row. -/
+theorem C06_receipts_probe_agrees_with_model :
+    Generated.C06.receiptsWhileSending =
+      some [rcptProbeRow 0 0, rcptProbeRow 0 1, rcptProbeRow 1 0, rcptProbeRow 1 1] := by decide
+
+example : rcptProbeRow 1 0 = (1, 0, true, true) := by decide
 
 /-- one outcome per call -/
 theorem C06_receipts_outcome_stable {ids s a s'} {i : Nat} {ok : Bool}
@@ -563,29 +648,31 @@ the caller to whom it was handed inside an iterator — never nobody (the serve 
 for the close for ever), never both (closing twice panics the hand-off channel) -/
 theorem C06_helper_response_closed_once (a : Api) (sh : Shape) :
     (call a sh).helperCloses + (if (call a sh).handed then 1 else 0) = 1 := by
-  cases a <;> simp only [call, unmarshalIQ, iterIQ] <;> (repeat' split) <;> simp_all
+  cases a <;> simp only [call, unmarshalIQ, iterIQ, ibbOpen] <;> (repeat' split) <;> simp_all
 
 /-- a call that returns an error hands nothing to the caller (so the helper has closed the
 response), and only the iterator helpers ever hand something on -/
 theorem C06_helper_error_means_closed (a : Api) (sh : Shape) (h : (call a sh).err = true) :
     (call a sh).handed = false ∧ (call a sh).helperCloses = 1 := by
-  cases a <;> simp only [call, unmarshalIQ, iterIQ] at h ⊢ <;> (repeat' split) <;> simp_all
+  cases a <;> simp only [call, unmarshalIQ, iterIQ, ibbOpen] at h ⊢ <;> (repeat' split) <;> simp_all
 
 /-- the iterator helpers hand the response on exactly when they succeed; the others never do -/
 theorem C06_helper_handed_iff (a : Api) (sh : Shape) :
     (call a sh).handed = ((a = .iter ∨ a = .iterElement) && !(call a sh).err) := by
-  cases a <;> simp only [call, unmarshalIQ, iterIQ] <;> (repeat' split) <;> simp_all
+  cases a <;> simp only [call, unmarshalIQ, iterIQ, ibbOpen] <;> (repeat' split) <;> simp_all
 
 /-- a reply whose addresses are not JIDs is an error for every helper -/
 theorem C06_helper_bad_address_is_error (a : Api) (sh : Shape) (h : sh.from_ = .invalid ∨ sh.to = .invalid) :
     (call a sh).err = true := by
   have hf : newIQFails sh = true := by
     rcases h with h | h <;> simp [newIQFails, h]
-  cases a <;> simp [call, unmarshalIQ, iterIQ, hf]
+  cases a <;> simp [call, unmarshalIQ, iterIQ, ibbOpen, hf]
 
 -- non-vacuity: the path on which only the deferred closer stands between a malformed reply and a stalled serve loop
 example : call .iter ⟨.result, .invalid, .absent, .one⟩ = ⟨true, false, 1⟩ := by decide
 example : call .iterElement ⟨.result, .valid, .valid, .nested⟩ = ⟨false, true, 0⟩ := by decide
+-- round E: `ibb.open` never hands its response on and closes it on the refusing path too
+example : call .ibbOpen ⟨.error, .valid, .absent, .bad⟩ = ⟨true, false, 1⟩ := by decide
 
 end Wrap
 
@@ -877,5 +964,83 @@ example : (CorrIbb.final {} {} ([.read, .write, .close] ++ epilogue)).quiet = tr
 example : Good ({} : CorrIbb.St) := by intro h; simp at h
 
 end Ibb
+
+/-! ### round E: the key a call waits under is the id on the wire; addresses take no part
+
+`Model/CorrKey.lean`: head of `SendIQ` / `SendMessage` / `SendPresence` (find or add the id
+attribute, generate a value into it), the id part of `stanzaEncoder.EncodeToken` (drop empty
+id attributes, add one if none is left), the peer reading the id off the wire, the look-up by
+`(id, name)`.  "returns … with the response stanza of the same kind and id" presupposes that the
+id the peer can answer with IS the key of the pending entry. -/
+section Key
+open XmppModel.CorrKey XmppModel.CorrAttrs
+
+/-- for EVERY attribute list of the request's start element (qualified look-alikes, empty values,
+several id attributes, any position of the type attribute): the id the peer reads on the wire is
+the key the call registered -/
+theorem C06_key_wire_id_is_registered_id (f₁ f₂ : Nat) (hf : f₁ ≠ 0) (attrs : List Attr) :
+    wireId (send {} f₁ f₂ attrs).2 = some (send {} f₁ f₂ attrs).1 :=
+  wire_id_registered f₁ f₂ hf attrs
+
+example : send {} 7 8 [⟨.foreign, .id, 2⟩, ⟨.none, .id, 0⟩, ⟨.none, .type, 1⟩] =
+    (7, [⟨.foreign, .id, 2⟩, ⟨.none, .id, 7⟩, ⟨.none, .type, 1⟩]) := by decide
+
+/-- a call never waits under the empty id -/
+theorem C06_key_registered_id_nonempty (cfg : CorrKey.Cfg) (f₁ : Nat) (hf : f₁ ≠ 0) (attrs : List Attr) :
+    (prepare cfg f₁ attrs).1 ≠ 0 := by
+  unfold prepare
+  cases idOf attrs with
+  | none => simpa using hf
+  | some p =>
+    obtain ⟨idx, v⟩ := p
+    by_cases hv : v = 0 <;> simp [hv, hf]
+
+/-- an id the caller chose is the key (and, by the first theorem, what the peer reads) -/
+theorem C06_key_given_id_is_key (cfg : CorrKey.Cfg) (f₁ f₂ idx v : Nat) (attrs : List Attr)
+    (h : idOf attrs = some (idx, v)) (hv : v ≠ 0) : (send cfg f₁ f₂ attrs).1 = v := by
+  simp [send, prepare, h, hv]
+
+example : idOf [⟨.none, .type, 1⟩, ⟨.none, .id, 1⟩] = some (1, 1) := by decide
+
+/-- the look-up reads neither the request's to nor the reply's from -/
+theorem C06_key_lookup_ignores_addresses (e : Entry) (r : Reply) (to' : To) (frm' : From) :
+    matchEntry {} e r = matchEntry {} { e with to := to' } { r with frm := frm' } := by
+  simp [matchEntry]
+
+/-- every round trip ends with the reply: whatever the start element's attributes, wherever the
+request went, however the peer spells its address (or whoever answers) -/
+theorem C06_key_round_trip_ends_with_reply (f₁ f₂ : Nat) (hf : f₁ ≠ 0) (attrs : List Attr) (to : To) (frm : From) :
+    roundTrip {} f₁ f₂ attrs to frm = .reply := by
+  unfold roundTrip
+  simp only [C06_key_wire_id_is_registered_id f₁ f₂ hf attrs]
+  simp [matchEntry]
+
+/-- negation witness: generate an id without writing it into the empty id attribute that was
+found, and the reply to what the encoder sends instead is lost -/
+theorem C06_key_unstored_id_loses_reply :
+    roundTrip { storeFresh := false } 7 8 [⟨.none, .id, 0⟩] .absent .absent = .lost := by decide
+
+/-- negation witness: compare the reply's from with the request's to as strings, and the reply of
+the very addressee, spelled differently, is lost -/
+theorem C06_key_checked_from_loses_reply :
+    roundTrip { fromChecked := true } 7 8 [] .full .equiv = .lost ∧
+    roundTrip { fromChecked := true } 7 8 [⟨.none, .id, 1⟩] .idn .ace = .lost := by decide
+
+/-- the delivery-receipt helper: the key of its table of pending receipts is the id the peer
+reads on the wire and acknowledges, for every attribute list of the message's start element -/
+theorem C06_key_receipts_wire_id_is_key (f₁ f₂ : Nat) (hf : f₁ ≠ 0) (attrs : List Attr) :
+    wireId (rcptSend f₁ f₂ attrs).2 = some (rcptSend f₁ f₂ attrs).1 ∧ (rcptSend f₁ f₂ attrs).1 ≠ 0 := by
+  simp only [rcptSend]
+  by_cases hv : lastId attrs 0 = 0
+  · simp [hv, encode, wireId, idOf, scanI, hf]
+  · simp [hv, encode, wireId, idOf, scanI]
+
+example : rcptSend 7 8 [⟨.foreign, .id, 2⟩, ⟨.none, .id, 0⟩] = (7, [⟨.none, .type, 1⟩, ⟨.none, .other, 1⟩, ⟨.none, .id, 7⟩]) := by decide
+
+/-- the complete small domain the differential runs cover (what the driver answers for it) -/
+example : (lists 2).all (fun as => allTo.all fun t => allFrom.all fun f => roundTrip {} 7 8 as t f = .reply) = true := by
+  decide
+
+end Key
 
 end XmppModel.Props.C06
